@@ -222,6 +222,22 @@ func (fx *effects) ofInstr(ins ssa.Instruction) *WriteSet {
 func (fx *effects) ofCall(c *ssa.CallCommon) *WriteSet {
 	w := newWS()
 	if c.IsInvoke() {
+		// devirtualised interface: the single implementation's effects
+		if n, ok := c.Value.Type().(*types.Named); ok && n.Obj().Pkg() != nil {
+			if target, ok := fx.C.Devirt[n.Obj().Pkg().Path()+"."+n.Obj().Name()]; ok {
+				dot := strings.LastIndex(target, ".")
+				if sp := fx.P.SPkgs[target[:dot]]; sp != nil {
+					if obj := sp.Pkg.Scope().Lookup(target[dot+1:]); obj != nil {
+						ms := fx.P.Prog.MethodSets.MethodSet(types.NewPointer(obj.Type()))
+						if sel := ms.Lookup(c.Method.Pkg(), c.Method.Name()); sel != nil {
+							if fn := fx.P.Prog.MethodValue(sel); fn != nil {
+								return fx.of(fn)
+							}
+						}
+					}
+				}
+			}
+		}
 		key := ifaceMethodKey(c)
 		if fc := fx.C.Funcs[key]; fc != nil && fc.HasModifies && len(fc.Modifies) == 0 {
 			return w
@@ -323,6 +339,18 @@ func inlinableExternal(fn *ssa.Function) bool {
 	switch fn.Pkg.Pkg.Path() {
 	case "encoding/binary":
 		return true
+	case "time":
+		// tiny accessors such as Duration.Nanoseconds / Milliseconds
+		n := 0
+		for _, b := range fn.Blocks {
+			for _, ins := range b.Instrs {
+				if _, isCall := ins.(*ssa.Call); isCall {
+					return false
+				}
+				n++
+			}
+		}
+		return n <= 24
 	}
 	return false
 }
